@@ -301,7 +301,15 @@ int verif_strcmp(const char *a, const char *b)
 	return 0;
 }
 #else
-int verif_strcmp(const char *a, const char *b) { return nondet_int(); }
+/* ghost: did the code compare a name with the name of a held query and find them equal? */
+static _Bool g_eq_q, g_eq_qs;
+int verif_strcmp(const char *a, const char *b)
+{
+	int r = nondet_int();
+	if (r == 0 && (b == slot.q.name || a == slot.q.name)) g_eq_q = 1;
+	if (r == 0 && (b == slot.q_sendrealsoon.name || a == slot.q_sendrealsoon.name)) g_eq_qs = 1;
+	return r;
+}
 #endif
 char *verif_strchr(const char *s, int c)
 {
@@ -965,7 +973,7 @@ void h_cmd_stream(void)
 #endif
 #endif
 	for (i = 0; i < 8; i++) g_b32_script[i] = nondet_int();
-	g_chunk_calls = g_ack_calls = g_full_calls = g_cache_hits = g_qmem_hits = 0;
+	g_chunk_calls = g_ack_calls = g_full_calls = g_cache_hits = g_qmem_hits = 0; g_eq_q = g_eq_qs = 0;
 	struct snap s0 = take_snap();
 	_Bool auth = LIVE0(uid) && slot.authenticated;
 	int before = (g_q.id != 0) + TOKENS(slot.q) + TOKENS(slot.q_sendrealsoon);
@@ -984,6 +992,17 @@ void h_cmd_stream(void)
 	__CPROVER_assert(g_full_calls <= 1 && (g_tun_writes == 0 || g_full_calls == 1), "at most one packet is delivered, and only through handle_full_packet");
 	__CPROVER_assert(g_sendto == 0, "no raw send");
 	__CPROVER_assert(slot.authenticated == s0.authenticated && slot.authenticated_raw == s0.authenticated_raw && slot.seed == s0.seed && slot.conn == s0.conn && slot.encoder == s0.encoder && slot.downenc == s0.downenc && slot.fragsize == s0.fragsize && slot.lazy == s0.lazy && slot.options_locked == s0.options_locked && slot.hostlen == s0.hostlen, "stream commands never change login state or session options");
+	/* C14/C16: a duplicate is remembered with the held query it duplicates (same type, same name), so that the extra answer
+	 * carries the duplicate's own question */
+	{
+		_Bool q_same = slot.q.id == s0.q_id && slot.q.id2 == hq_id2, q_gone = slot.q.id == 0, q_fresh = slot.q.id == qid0 && slot.q.id2 == 0;
+		_Bool q_dup = s0.q_id != 0 && slot.q.id == s0.q_id && slot.q.id2 == qid0 && g_eq_q && g_q.type == slot.q.type && g_answers == 0;
+		_Bool s_same = slot.q_sendrealsoon.id == s0.qs_id && slot.q_sendrealsoon.id2 == hs_id2, s_gone = slot.q_sendrealsoon.id == 0, s_fresh = slot.q_sendrealsoon.id == qid0 && slot.q_sendrealsoon.id2 == 0;
+		_Bool s_moved = slot.q_sendrealsoon.id == s0.q_id && slot.q_sendrealsoon.id2 == hq_id2;
+		_Bool s_dup = s0.qs_id != 0 && slot.q_sendrealsoon.id == s0.qs_id && slot.q_sendrealsoon.id2 == qid0 && g_eq_qs && g_q.type == slot.q_sendrealsoon.type && g_answers == 0;
+		__CPROVER_assert(q_same || q_gone || q_fresh || q_dup, "the held query is kept, consumed, replaced by the received query, or remembers the received query as ITS duplicate (same type and name) - nothing else");
+		__CPROVER_assert(s_same || s_gone || s_fresh || s_moved || s_dup, "the send-soon query is kept, consumed, replaced (by the received or the held query), or remembers the received query as ITS duplicate (same type and name) - nothing else");
+	}
 	__CPROVER_assert(SESSION_WF(slot), "the session invariant is preserved");
 	VERIF_REACH();
 }
